@@ -75,7 +75,7 @@ class Log(object):
 def rand_instant(rng):
     r = rng.random()
     if r < 0.45:
-        y = rng.randrange(1995, 2035)
+        y = rng.randrange(2008, 2037)
         d = rng.choice(transition_days(y))
         return datetime(d.year, d.month, d.day) + timedelta(days=rng.choice([-1, 0, 0, 0, 1]), hours=rng.randrange(0, 5),
                                                             minutes=rng.choice([0, 0, 15, 30, 45, rng.randrange(60)]),
@@ -142,7 +142,7 @@ def main():
         else:
             L.call("TimeScale.ticks", s.ticks, m)
         c = s.copy()
-        L.call("TimeScale.nice.domain", lambda: c.nice(m).domain() if m else c.nice().domain())
+        L.call("TimeScale.nice.domain", lambda *_a: c.nice(m).domain() if m else c.nice().domain())
         L.call("TimeScale.nice.ticks", c.ticks)
 
     for k in range(spec["exports"]):
@@ -160,7 +160,39 @@ def main():
         for cls in (TimelineSVG, TimelineTex):
             opts = {"scale": TimeScale(), "direction": direction, "initialWidth": 600, "initialHeight": 600, "labella": {"maxPos": 560}}
             dd = [dict(d) for d in data]
-            L.call(cls.__name__ + ".export", lambda: cls(dd, options=opts).export(), [d["time"] for d in data], direction)
+            L.call(cls.__name__ + ".export", lambda *_a: cls(dd, options=opts).export(), [d["time"] for d in data], direction)
+    # wall-clock values that do not exist (spring-forward gap) or exist twice (fall-back) in one of the zones:
+    # naive values must pass through untouched whatever the process zone is
+    for y in (2008 + (spec["chunk"] * 7) % 29, 2021):  # the DST rules encoded above hold from 2008 on
+        windows = [
+            (nth_sunday(y, 3, 2), 2, 0, 60),    # US Eastern gap 02:00-03:00
+            (nth_sunday(y, 11, 1), 1, 0, 60),   # US Eastern repeated hour
+            (nth_sunday(y, 10, 1), 2, 0, 30),   # Lord Howe gap 02:00-02:30
+            (nth_sunday(y, 4, 1), 1, 30, 30),   # Lord Howe repeated half hour
+            (nth_sunday(y, 9, -1), 2, 45, 60),  # Chatham gap 02:45-03:45
+            (nth_sunday(y, 4, 1), 2, 45, 60),   # Chatham repeated hour
+        ]
+        for d, hh, mm, width in windows:
+            w0 = datetime(d.year, d.month, d.day, hh, mm)
+            data = []
+            for i in range(5):
+                t = w0 + timedelta(minutes=width * (i + 0.5) / 5.0, seconds=rng.randrange(60))
+                data.append({"time": t, "width": 20 + 3 * i, "text": "G%d" % i})
+            data.append({"time": w0 - timedelta(hours=3), "width": 41})
+            data.append({"time": w0 + timedelta(hours=5), "width": 44})
+            for cls in (TimelineSVG, TimelineTex):
+                for own_scale in (True, False):
+                    opts = {"direction": "up", "initialWidth": 900, "initialHeight": 300, "labella": {"maxPos": 860}}
+                    if own_scale:
+                        opts["scale"] = TimeScale()
+                    dd = [dict(x) for x in data]
+                    L.call(cls.__name__ + ".export.dst-window", lambda *_a: cls(dd, options=opts).export(), [x["time"] for x in data], own_scale)
+            s2 = TimeScale().domain([w0 - timedelta(minutes=20), w0 + timedelta(minutes=width + 20)]).range([0, 500])
+            for i in range(4):
+                q = w0 + timedelta(minutes=width * i / 4.0)
+                L.call("TimeScale.call.dst-window", s2, q)
+            L.call("TimeScale.ticks.dst-window", s2.ticks, 8)
+            L.call("TimeScale.invert.dst-window", s2.invert, 250.0)
     sys.stdout.write("END|%d\n" % L.n)
 
 
